@@ -43,7 +43,7 @@ def gen_case(rng, tier):
     else:
         sites = [rng.choice(ALL) for _ in range(rng.randint(2, 3))]
     return {"kind": kind, "sites": sites, "cond": rng.random() < 0.4, "theta": [round(rng.uniform(-0.8, 0.8), 3), round(rng.uniform(-0.8, 0.8), 3)],
-            "ret": rng.choice(["poly", "sin", "prod"]), "nodes": 8 if tier == "quick" else 20, "max_leaves": 1000 if tier == "quick" else 40000,
+            "ret": rng.choice(["poly", "sin", "prod"]), "nodes": 8 if tier == "quick" else 14, "max_leaves": 1000 if tier == "quick" else 8000,
             "real_cfg": rng.choice(["seed", "jit", "mvmap"]), "key": rng.randint(0, 2**30)}
 
 
